@@ -1,0 +1,367 @@
+//go:build verif
+
+// Verification hooks for properties C29/C30 (Runner reuse and no-modify).
+// Add-only; compiled only with -tags verif.
+
+package interp
+
+import (
+	"context"
+	"errors"
+	"fmt"
+	"io"
+	"reflect"
+	"sort"
+	"strings"
+	"unsafe"
+
+	"mvdan.cc/sh/v3/expand"
+	"mvdan.cc/sh/v3/syntax"
+)
+
+// VerifRunnerFields lists every field of [Runner] in declaration order,
+// as (name, Go type) pairs.
+func VerifRunnerFields() [][2]string {
+	t := reflect.TypeOf(Runner{})
+	out := make([][2]string, t.NumField())
+	for i := range out {
+		out[i] = [2]string{t.Field(i).Name, t.Field(i).Type.String()}
+	}
+	return out
+}
+
+// VerifRunnerSnapshot returns a deep, identity-free, canonical rendering of
+// every field of r, keyed by field name: maps are sorted by key, pointers are
+// dereferenced, funcs are nil/set, readers, writers and contexts are reduced to
+// their dynamic type, environments are dumped through Each in name order,
+// syntax nodes are printed as source.
+func VerifRunnerSnapshot(r *Runner) map[string]string {
+	v := reflect.ValueOf(r).Elem()
+	t := v.Type()
+	out := make(map[string]string, t.NumField())
+	for i := range t.NumField() {
+		out[t.Field(i).Name] = verifCanonSafe(verifField(v, i), 0, true)
+	}
+	return out
+}
+
+// verifField returns field i of struct v with the read-only flag cleared when
+// the struct is addressable, so that unexported fields can be inspected.
+func verifField(v reflect.Value, i int) reflect.Value {
+	f := v.Field(i)
+	if f.CanAddr() {
+		return reflect.NewAt(f.Type(), unsafe.Pointer(f.UnsafeAddr())).Elem()
+	}
+	return f
+}
+
+func verifCanonSafe(v reflect.Value, depth int, top bool) (s string) {
+	defer func() {
+		if e := recover(); e != nil {
+			s = fmt.Sprintf("!panic(%v)", e)
+		}
+	}()
+	return verifCanon(v, depth, top)
+}
+
+var (
+	verifTypStmt     = reflect.TypeOf((*syntax.Stmt)(nil))
+	verifTypWord     = reflect.TypeOf((*syntax.Word)(nil))
+	verifTypFile     = reflect.TypeOf((*syntax.File)(nil))
+	verifTypErr      = reflect.TypeOf((*error)(nil)).Elem()
+	verifTypEnviron  = reflect.TypeOf((*expand.Environ)(nil)).Elem()
+	verifTypWEnviron = reflect.TypeOf((*expand.WriteEnviron)(nil)).Elem()
+	verifTypWriter   = reflect.TypeOf((*io.Writer)(nil)).Elem()
+	verifTypContext  = reflect.TypeOf((*context.Context)(nil)).Elem()
+	verifTypDone     = reflect.TypeOf((chan struct{})(nil))
+)
+
+func verifPrintNode(n syntax.Node) string {
+	var sb strings.Builder
+	if err := syntax.NewPrinter().Print(&sb, n); err != nil {
+		return "src!err:" + err.Error()
+	}
+	return fmt.Sprintf("src:%q", sb.String())
+}
+
+func verifDumpEnviron(env expand.Environ) string {
+	type nv struct{ n, v string }
+	var all []nv
+	env.Each(func(name string, vr expand.Variable) bool {
+		all = append(all, nv{name, verifCanon(reflect.ValueOf(vr), 1, false)})
+		return true
+	})
+	// Each may yield a name more than once (overlay over parent): the last one wins.
+	last := map[string]string{}
+	for _, e := range all {
+		last[e.n] = e.v
+	}
+	names := make([]string, 0, len(last))
+	for n := range last {
+		names = append(names, n)
+	}
+	sort.Strings(names)
+	var sb strings.Builder
+	sb.WriteString("env{")
+	for _, n := range names {
+		fmt.Fprintf(&sb, "%q=%s;", n, last[n])
+	}
+	sb.WriteString("}")
+	return sb.String()
+}
+
+func verifCanon(v reflect.Value, depth int, top bool) string {
+	if !v.IsValid() {
+		return "nil"
+	}
+	if depth > 8 {
+		return "..."
+	}
+	t := v.Type()
+	switch t {
+	case verifTypStmt:
+		if v.IsNil() {
+			return "nil"
+		}
+		return verifPrintNode((*syntax.Stmt)(v.UnsafePointer()))
+	case verifTypWord:
+		if v.IsNil() {
+			return "nil"
+		}
+		return verifPrintNode((*syntax.Word)(v.UnsafePointer()))
+	case verifTypFile:
+		if v.IsNil() {
+			return "nil"
+		}
+		return verifPrintNode((*syntax.File)(v.UnsafePointer()))
+	}
+	switch v.Kind() {
+	case reflect.Bool:
+		return fmt.Sprint(v.Bool())
+	case reflect.Int, reflect.Int8, reflect.Int16, reflect.Int32, reflect.Int64:
+		return fmt.Sprint(v.Int())
+	case reflect.Uint, reflect.Uint8, reflect.Uint16, reflect.Uint32, reflect.Uint64, reflect.Uintptr:
+		return fmt.Sprint(v.Uint())
+	case reflect.Float32, reflect.Float64:
+		return fmt.Sprint(v.Float())
+	case reflect.String:
+		return fmt.Sprintf("%q", v.String())
+	case reflect.Func:
+		if v.IsNil() {
+			return "func:nil"
+		}
+		return "func:set"
+	case reflect.Chan:
+		if v.IsNil() {
+			return "chan:nil"
+		}
+		if t == verifTypDone && v.CanInterface() {
+			select {
+			case <-v.Interface().(chan struct{}):
+				return "chan:closed"
+			default:
+				return "chan:open"
+			}
+		}
+		return "chan:set"
+	case reflect.Interface:
+		if v.IsNil() {
+			return "nil"
+		}
+		dyn := v.Elem().Type().String()
+		if v.CanAddr() {
+			p := unsafe.Pointer(v.UnsafeAddr())
+			switch t {
+			case verifTypErr:
+				return fmt.Sprintf("err:%s:%q", dyn, (*(*error)(p)).Error())
+			case verifTypEnviron:
+				if top {
+					return dyn + ":" + verifDumpEnviron(*(*expand.Environ)(p))
+				}
+			case verifTypWEnviron:
+				if top {
+					return dyn + ":" + verifDumpEnviron(*(*expand.WriteEnviron)(p))
+				}
+			}
+		}
+		return "iface:" + dyn
+	case reflect.Pointer:
+		if v.IsNil() {
+			return "nil"
+		}
+		if pkg := t.Elem().PkgPath(); pkg == "os" || pkg == "sync" || pkg == "context" {
+			return "ptr:" + t.String()
+		}
+		return "&" + verifCanon(v.Elem(), depth+1, false)
+	case reflect.Struct:
+		// A struct with an open "done" channel belongs to a goroutine that is
+		// still running: do not follow its pointers (they are being written).
+		pending := false
+		for i := range v.NumField() {
+			f := verifField(v, i)
+			if f.Type() == verifTypDone && !f.IsNil() && verifCanon(f, depth+1, false) == "chan:open" {
+				pending = true
+			}
+		}
+		var sb strings.Builder
+		sb.WriteString("{")
+		for i := range v.NumField() {
+			f := verifField(v, i)
+			fmt.Fprintf(&sb, "%s:", t.Field(i).Name)
+			if pending && f.Kind() == reflect.Pointer {
+				sb.WriteString("ptr:pending")
+			} else {
+				sb.WriteString(verifCanon(f, depth+1, false))
+			}
+			sb.WriteString(";")
+		}
+		sb.WriteString("}")
+		return sb.String()
+	case reflect.Slice:
+		if v.IsNil() {
+			return "[]nil"
+		}
+		fallthrough
+	case reflect.Array:
+		var sb strings.Builder
+		fmt.Fprintf(&sb, "[%d]{", v.Len())
+		for i := range v.Len() {
+			sb.WriteString(verifCanon(v.Index(i), depth+1, false))
+			sb.WriteString(",")
+		}
+		sb.WriteString("}")
+		return sb.String()
+	case reflect.Map:
+		if v.IsNil() {
+			return "map:nil"
+		}
+		type kv struct{ k, v string }
+		var all []kv
+		iter := v.MapRange()
+		for iter.Next() {
+			all = append(all, kv{verifCanon(iter.Key(), depth+1, false), verifCanon(iter.Value(), depth+1, false)})
+		}
+		sort.Slice(all, func(i, j int) bool { return all[i].k < all[j].k })
+		var sb strings.Builder
+		fmt.Fprintf(&sb, "map[%d]{", len(all))
+		for _, e := range all {
+			fmt.Fprintf(&sb, "%s=>%s;", e.k, e.v)
+		}
+		sb.WriteString("}")
+		return sb.String()
+	}
+	return "?" + t.String()
+}
+
+type verifPokeWriter struct{}
+
+func (verifPokeWriter) Write(p []byte) (int, error) { return len(p), nil }
+
+type verifPokeKey struct{}
+
+// VerifRunnerPoke replaces the value of the named field of r by a different
+// value of the same type (a "poison"), so that a later Reset can be observed
+// to either carry the field over or re-initialise it. It reports whether the
+// field could be changed.
+func VerifRunnerPoke(r *Runner, name string) bool {
+	v := reflect.ValueOf(r).Elem()
+	t := v.Type()
+	for i := range t.NumField() {
+		if t.Field(i).Name == name {
+			return verifPoke(verifField(v, i))
+		}
+	}
+	return false
+}
+
+func verifPoke(v reflect.Value) bool {
+	t := v.Type()
+	switch v.Kind() {
+	case reflect.Bool:
+		v.SetBool(!v.Bool())
+	case reflect.Int, reflect.Int8, reflect.Int16, reflect.Int32, reflect.Int64:
+		v.SetInt(v.Int() + 7)
+	case reflect.Uint, reflect.Uint8, reflect.Uint16, reflect.Uint32, reflect.Uint64:
+		v.SetUint(v.Uint() + 7)
+	case reflect.String:
+		v.SetString(v.String() + "\x01poke")
+	case reflect.Slice:
+		el := reflect.New(t.Elem()).Elem()
+		if el.Kind() == reflect.String {
+			el.SetString("\x01poke")
+		}
+		// always move to fresh storage, so that only the field itself changes
+		nv := reflect.MakeSlice(t, 0, v.Len()+1)
+		nv = reflect.AppendSlice(nv, v)
+		v.Set(reflect.Append(nv, el))
+	case reflect.Array:
+		if v.Len() == 0 {
+			return false
+		}
+		return verifPoke(v.Index(v.Len() / 2))
+	case reflect.Map:
+		if t.Key().Kind() != reflect.String {
+			return false
+		}
+		nv := reflect.MakeMap(t)
+		if !v.IsNil() {
+			iter := v.MapRange()
+			for iter.Next() {
+				nv.SetMapIndex(iter.Key(), iter.Value())
+			}
+		}
+		k := reflect.New(t.Key()).Elem()
+		k.SetString("\x01poke")
+		nv.SetMapIndex(k, reflect.New(t.Elem()).Elem())
+		v.Set(nv)
+	case reflect.Func:
+		if v.IsNil() {
+			v.Set(reflect.MakeFunc(t, func([]reflect.Value) []reflect.Value {
+				out := make([]reflect.Value, t.NumOut())
+				for i := range out {
+					out[i] = reflect.Zero(t.Out(i))
+				}
+				return out
+			}))
+		} else {
+			v.Set(reflect.Zero(t))
+		}
+	case reflect.Interface:
+		var nv any
+		switch t {
+		case verifTypEnviron:
+			nv = expand.ListEnviron("VERIFPOKE=1")
+		case verifTypWEnviron:
+			nv = &overlayEnviron{parent: expand.ListEnviron("VERIFPOKE=1")}
+		case verifTypWriter:
+			nv = verifPokeWriter{}
+		case verifTypContext:
+			nv = context.WithValue(context.Background(), verifPokeKey{}, 1)
+		case verifTypErr:
+			nv = errors.New("verif poke")
+		default:
+			if v.IsNil() {
+				return false
+			}
+			v.Set(reflect.Zero(t))
+			return true
+		}
+		v.Set(reflect.ValueOf(nv))
+	case reflect.Pointer:
+		if v.IsNil() {
+			v.Set(reflect.New(t.Elem()))
+		} else {
+			v.Set(reflect.Zero(t))
+		}
+	case reflect.Struct:
+		for i := range v.NumField() {
+			if verifPoke(verifField(v, i)) {
+				return true
+			}
+		}
+		return false
+	default:
+		return false
+	}
+	return true
+}
